@@ -1,5 +1,6 @@
 import BlochVerif.Gc.Model
 import BlochVerif.Life.Model
+import BlochVerif.Life.Gc
 /-! `heap <ops> <schedule>`: the heap machine's output under a collection schedule (none | all | hex bitmask). -/
 namespace Driver
 open BlochVerif.Gc
@@ -45,5 +46,13 @@ def lifeLine (ops : String) : String :=
     let s := BlochVerif.Life.runOps os
     "trace " ++ "|".intercalate s.out ++ " ## " ++ "|".intercalate (BlochVerif.Life.finalDestructors s)
   | none => "bad-op"
+
+/-- `lifegc <ops> <schedule>`: the same machine with a collection before every step the schedule selects -/
+def lifeGcLine (ops sched : String) : String :=
+  match (if ops == "-" then some [] else (ops.splitOn ";").mapM parseHeapOp), parseSched sched with
+  | some os, some f =>
+    let s := BlochVerif.Life.runOpsS f os
+    "trace " ++ "|".intercalate s.out ++ " ## " ++ "|".intercalate (BlochVerif.Life.finalDestructors s)
+  | _, _ => "bad-op"
 
 end Driver
